@@ -65,8 +65,8 @@ func (self *Compiler) compileCallExpr(node ast.AnalyzedCallExpression) {
 	if node.Base.Kind() == ast.IdentExpressionKind {
 		base := node.Base.(ast.AnalyzedIdentExpression)
 
-		// Special case: base is `throw`
-		if base.Ident.Ident() == "throw" {
+		// Special case: base is `throw` (unless a variable of this name hides the builtin)
+		if _, hidden := self.getMangled(base.Ident.Ident()); base.Ident.Ident() == "throw" && !hidden {
 			self.insert(newPrimitiveInstruction(Opcode_Throw), node.Range)
 			return
 		}
